@@ -62,6 +62,10 @@ CHECKS = {
          "Random op sequences (<=200 ops, capacities 0..=4096) on RingBuffer and PacketBuffer compared with a VecDeque model after every operation, plus exhaustive enumeration of all op sequences up to depth 4 (quick) / 5 (thorough) over a small alphabet for small capacities. Exploration, not proof: exhaustive only inside the stated small sub-space.",
          "Trusts the VecDeque model and the stated preconditions of the asserted operations; contents of unallocated slots compared only when written through the unallocated interface.",
          "DESIGN.md 3/C14"),
+ "C16": ("invariant-over-history PBT: scripted ARP/NDISC environment (timely/late/absent/unsolicited/spoofed claims), own LPM router model, independent codecs incl. 802.15.4/IPHC",
+         "Node on Ethernet (IPv4+IPv6) or 802.15.4 with 2-6 sockets sending to more destinations than cache slots (on-link, via default/more specific/expiring/no route); up to 70 events of sends, ARP/NA/NS claims of every legitimacy class, plain traffic, address changes, route changes, transmit budgets and time steps across the 1 s and 60 s boundaries. For every emitted unicast frame: next hop by an independent longest-prefix-match model, L2 destination must be unicast and among the addresses legitimately claimed/confirmed within 60 s since the last address change; discovery frames >= 1 s apart and only for real next hops; queued datagrams leave FIFO, once, only by transmission. 11 mutants killed (sub-agent report).",
+         "Legitimacy of a claim follows what the statement calls 'learned' from validated ARP/NDISC (a valid NA also counts for its IP source, as smoltcp's own tests pin); starvation of discovery by another socket is counted here and judged under C09.",
+         "DESIGN.md 3/C16"),
  "C17": ("table-oracle PBT: one event at a time (ingress single / egress / API / time), allowed-transition table with guards from an independent sequence-space view",
          "Up to 120 events per case over several connection life cycles; segments drawn around RCV.NXT, window edges, ISS+1, SND.NXT, FIN+1; every observed state change must be an RFC 9293 edge whose guard (exact ISS ack, in-order FIN, ack of own FIN, in-window RST, TIME-WAIT >= 10 s, configured timeout) holds. One open known finding (close() in SYN-RECEIVED).",
          "Guards are necessary conditions from emitted segments and API calls; not judged while the socket's ISS is unobserved; peer never offers window scaling.",
